@@ -677,12 +677,12 @@ SequenceOfLabelsGetSize(const uint8_t *buf, size_t buf_size, size_t *name_len_re
 		switch((label & SEQ_LABEL_CTRL_MASK)){
 		case SEQ_LABEL_CTRL_LEN:		//00------ // RFC 1035 4.1.4: // 6 bit - label len, see SEQ_LABEL_DATA_MASK
 			label &= SEQ_LABEL_DATA_MASK;// now it contain len
-			if ((cur_pos + label) > max_pos)
-				return (EBADMSG); /* Out of buf range. */
 			if (0 == label) { // null label = end of name, ALL DONE!!!
 				(*name_len_ret) = (size_t)(cur_pos - buf);
 				return (0);
 			}
+			if ((cur_pos + label) >= max_pos)
+				return (EBADMSG); /* Out of buf range: label and next label byte must be inside. */
 			cur_pos += label;// move to next label
 			break;
 		case SEQ_LABEL_CTRL_EDNS: //01------ // RFC 2671 (Extension Mechanisms for DNS (EDNS0)) //value is encoded in the lower six bits of the first octet
@@ -690,6 +690,8 @@ SequenceOfLabelsGetSize(const uint8_t *buf, size_t buf_size, size_t *name_len_re
 			(*name_len_ret) = (size_t)(cur_pos - buf);
 			return (0);// XXX if its wrong, then error will be generated in other place
 		case SEQ_LABEL_CTRL_COMPRESSED: //11------ // RFC 1035 4.1.4: 14 bits = offset from the start of the message
+			if (cur_pos >= max_pos)
+				return (EBADMSG); /* Low offset byte is out of buf range. */
 			(*name_len_ret) = (size_t)((cur_pos - buf) + 1); // 1 = 1 offset byte (low 8 bits of offset)
 			return (0);
 		}
